@@ -177,7 +177,8 @@ theorem C09_bridge_seal_detached (P : Prims) (hS : WireSizes P) (v : Version) (s
     ∃ hb h sg, Wire.splitDetached out = .ok (.ok hb h, .sig sg) ∧ Codec.splitDetached out = .ok (.ok hb h, .sig sg) :=
   bridge_seal_detached P hS v signer nonce msg out hn hout
 
-/-- so on a sealed encryption message the byte-level front end IS that common answer -/
+/-- so on a sealed encryption message the byte-level front end (Codec first) IS that common answer
+    (all four modes: `C15_front_reads_sealed_*`; the receivers' results: `C01/C03/C05/C07_roundtrip_bytes_front`) -/
 theorem C09_front_on_sealed_enc (P : Prims) (hS : WireSizes P) (bs : Nat) (hbs : 0 < bs) (hbs32 : bs + 16 < 2 ^ 32)
     (v : Version) (sender : Option Bytes) (rs : List Encrypt.Recipient) (eph pk pt : Bytes)
     (hpk : pk.length + 16 < 2 ^ 32) (hpub : ∀ r ∈ rs, r.pub.length < 2 ^ 32)
@@ -185,7 +186,7 @@ theorem C09_front_on_sealed_enc (P : Prims) (hS : WireSizes P) (bs : Nat) (hbs :
     (hs : Encrypt.sealPackets P bs v sender rs eph pk pt = .ok (h, hb, blks))
     (he : Encrypt.encodeBlocks v blks = .ok body) (hhb : hb.length < 2 ^ 32) :
     Front.readEnc (headerPacket hb ++ body) = .ok (.ok hb h, ⟨(blks.map (encAsRead v)).map some, .eof⟩) :=
-  orCodec_of_wire (bridge_seal_enc P hS bs hbs hbs32 v sender rs eph pk pt hpk hpub h hb blks body hs he hhb).1
+  orWire_of_codec (bridge_seal_enc P hS bs hbs hbs32 v sender rs eph pk pt hpk hpub h hb blks body hs he hhb).2
 
 /-! ## non-vacuity (kernel-evaluated) -/
 
